@@ -771,7 +771,8 @@ impl World for WindowWorld {
         let tick_pattern = if alpha && rng.chance(1, 3) { vec![*rng.pick(&[0u8, 1]), *rng.pick(&[0u8, 1, 2]), 0] } else { vec![] };
         // unit scale (swarm): the same history with windows of seconds or minutes instead of ms
         let scale = *rng.pick(&[1i64, 1, 1, 1, 1, 7, 1000, 60_000]);
-        let duration_ms = duration_ms * scale as u64;
+        // at the larger scales one run in three makes the duration an odd number of milliseconds
+        let duration_ms = duration_ms * scale as u64 + if scale >= 1000 && rng.chance(1, 3) { rng.below(1000) } else { 0 };
         for e in events.iter_mut() {
             e.ts *= scale;
             e.clock_adv *= scale;
